@@ -8,7 +8,8 @@ tree are not disturbed), the outcome is recorded, and the worktree is removed.  
 applied to /repo itself.
 
 Usage: tools/eval_seeded.py [ids or property ids ...]    (default: all)
-Writes seeded/RESULTS.json and prints one line per seeded change.
+Writes seeded/RESULTS.json (or $EVAL_RESULTS) and prints one line per seeded change.  tools/eval_parallel.sh runs
+four shards (by property) at once and merges their results.
 """
 import json
 import os
@@ -41,7 +42,7 @@ def main():
     vcopy = os.path.join(scratch, 'verif')
     shutil.copytree(VERIF, vcopy, ignore=shutil.ignore_patterns('.git', 'replays', '__pycache__'), symlinks=True)
     os.makedirs(os.path.join(vcopy, 'replays'), exist_ok=True)
-    res_path = os.path.join(VERIF, 'seeded', 'RESULTS.json')
+    res_path = os.environ.get('EVAL_RESULTS') or os.path.join(VERIF, 'seeded', 'RESULTS.json')
     results = json.load(open(res_path)) if os.path.exists(res_path) else {}
     try:
         for sid in seeds:
